@@ -252,10 +252,10 @@ pub fn spec_strategy() -> impl Strategy<Value = ElfSpec> {
         ),
         proptest::bool::weighted(0.8),
         0u8..4,
-        (0u8..5, prop_oneof![3 => Just(0u8), 1 => 1u8..8], proptest::bool::weighted(0.25), 0u8..5, prop_oneof![2 => Just(0u8), 3 => 1u8..5], proptest::bool::weighted(0.3)),
+        (0u8..5, prop_oneof![3 => Just(0u8), 1 => 1u8..8], proptest::bool::weighted(0.25), 0u8..5, prop_oneof![2 => Just(0u8), 3 => 1u8..5], proptest::bool::weighted(0.3), prop_oneof![3 => Just(0u8), 2 => 1u8..4]),
     )
-        .prop_map(|((class64, little, text_len, text_seed), (build_id, note_phdr, note_section, note_align, other_notes), (soname, dyn_phdr, dyn_section, dyn_order), sections, extra_phdrs, (pages, seg2_delta_pages, empty_note_first, shstr_rotation, decoy_before, decoy_after))| ElfSpec {
-            class64, little, text_len, text_seed, build_id, note_phdr, note_section, note_align, other_notes, soname, dyn_phdr, dyn_section, dyn_order, sections, extra_phdrs, pages, seg2_delta_pages, empty_note_first, shstr_rotation, decoy_before, decoy_after,
+        .prop_map(|((class64, little, text_len, text_seed), (build_id, note_phdr, note_section, note_align, other_notes), (soname, dyn_phdr, dyn_section, dyn_order), sections, extra_phdrs, (pages, seg2_delta_pages, empty_note_first, shstr_rotation, decoy_before, decoy_after, dyn_link))| ElfSpec {
+            class64, little, text_len, text_seed, build_id, note_phdr, note_section, note_align, other_notes, soname, dyn_phdr, dyn_section, dyn_order, sections, extra_phdrs, pages, seg2_delta_pages, empty_note_first, shstr_rotation, decoy_before, decoy_after, dyn_link,
         })
 }
 
